@@ -290,6 +290,10 @@ def extract():
     out["MINOR_FILTER_CN_ADD"] = num(one(half, "minor: position_cn + K").right)
 
     # ---- sam.py --------------------------------------------------------------------------------
+    # gene.py: does the loader refuse variants whose replaced bases are not contiguous on the genome?
+    ge = parse("aldy/gene.py")
+    pm = func(ge, "Gene", "_init_alleles", "process_mutation")
+    out["LOADER_CHECKS_CONTIGUITY"] = any(isinstance(n, ast.Call) and src(n.func).endswith("_is_contiguous") for n in ast.walk(pm))
     sam = parse("aldy/sam.py")
     bq = func(sam, "Sample", "_parse_read", "bin_quality")
     table = []
@@ -377,6 +381,7 @@ def emit(c) -> str:
     A(f"def GUARD_REQUIRES_CN_REGION : Bool := {'true' if c['GUARD_REQUIRES_CN_REGION'] else 'false'}")
     A(f"def VCF_SKIPS_NONE : Bool := {'true' if c['VCF_SKIPS_NONE'] else 'false'}")
     A(f"def MINOR_FILTER_PER_STRUCTURE : Bool := {'true' if c['MINOR_FILTER_PER_STRUCTURE'] else 'false'}")
+    A(f"def LOADER_CHECKS_CONTIGUITY : Bool := {'true' if c['LOADER_CHECKS_CONTIGUITY'] else 'false'}")
     A(f"def MINOR_MUTATIONS_SORTED : Bool := {'true' if c['MINOR_MUTATIONS_SORTED'] else 'false'}")
     A(f"def MUTATIONS_ACCESSOR_COPIES : Bool := {'true' if c['MUTATIONS_ACCESSOR_COPIES'] else 'false'}")
     A("def MINOR_FILTER_DEPTH_OPS : List String := [" + ", ".join(lean_str(x) for x in c["MINOR_FILTER_DEPTH_OPS"]) + "]")
